@@ -5,11 +5,12 @@ package main
 // the caller's context stays alive (context.Background, as every query of the library's own lookups, pings and
 // maintenance has).
 //
-// The window is made wide with the server's own lock: an application goroutine sits inside Server.WriteStatus (which
-// writes to the caller's io.Writer under the server lock) on a writer that blocks; the reply is handed to the serve
-// loop, whose packet handler queues for the lock; the sender times out, Query queues for the lock behind the packet
-// handler; the writer is released. The packet handler wins, finds the transaction still registered and hands the reply
-// over - to a query that no longer listens. Nothing may be left behind: Query returns (time-out error or the reply),
+// The window is made wide with the server's own lock: a second query (to another address) is parked inside the
+// configured IP blocklist's Lookup, which Server.writeToNode calls with the server's READ lock held; the reply to the
+// first query is handed to the serve loop (its own read-locked blocklist check passes), whose packet handler queues for
+// the write lock; the first query's sender times out, Query queues for the write lock behind the packet handler; the
+// parked Lookup is released. The packet handler wins, finds the transaction still registered and hands the reply over -
+// to a query that no longer listens. Nothing may be left behind: Query returns (time-out error or the reply),
 // no transaction stays pending, every goroutine ends.
 
 import (
@@ -22,6 +23,7 @@ import (
 	"time"
 
 	"github.com/anacrolix/log"
+	"github.com/anacrolix/torrent/iplist"
 	"github.com/anacrolix/torrent/bencode"
 	"golang.org/x/time/rate"
 
@@ -29,20 +31,22 @@ import (
 	"github.com/anacrolix/dht/v2/krpc"
 )
 
-type gateWriter struct {
-	n       int64
+// parkRanger blocks nothing; a Lookup of parkIP waits (with whatever locks the caller holds) until released
+type parkRanger struct {
+	parkIP  net.IP
 	entered chan struct{}
 	release chan struct{}
 	once    sync.Once
 }
 
-func (w *gateWriter) Write(b []byte) (int, error) {
-	if atomic.AddInt64(&w.n, 1) == 2 { // the first write precedes the lock, the second is made under it
-		w.once.Do(func() { close(w.entered) })
-		<-w.release
+func (p *parkRanger) Lookup(ip net.IP) (iplist.Range, bool) {
+	if ip.Equal(p.parkIP) {
+		p.once.Do(func() { close(p.entered) })
+		<-p.release
 	}
-	return len(b), nil
+	return iplist.Range{}, false
 }
+func (p *parkRanger) NumRanges() int { return 0 }
 
 func qLockWindowCase(idx int, sc *qScn, base0 *int) {
 	detail := fmt.Sprintf("qcase %d lockwin tag=%s tries=%d", idx, sc.tag, sc.tries)
@@ -60,7 +64,9 @@ func qLockWindowCase(idx int, sc *qScn, base0 *int) {
 			}
 		}
 		const delay = 30 * time.Millisecond
+		pr := &parkRanger{parkIP: net.IPv4(10, 9, 9, byte(1+rep)), entered: make(chan struct{}), release: make(chan struct{})}
 		cfg := &dht.ServerConfig{
+			IPBlocklist:      pr,
 			Conn:             conn,
 			NoSecurity:       true,
 			StartingNodes:    func() ([]dht.Addr, error) { return nil, nil },
@@ -88,11 +94,14 @@ func qLockWindowCase(idx int, sc *qScn, base0 *int) {
 			stuck++
 			continue
 		}
-		gw := &gateWriter{entered: make(chan struct{}), release: make(chan struct{})}
+		hctx, hcancel := context.WithCancel(context.Background())
 		wsDone := make(chan struct{})
-		go func() { s.WriteStatus(gw); close(wsDone) }()
+		go func() {
+			s.Query(hctx, dht.NewAddr(&net.UDPAddr{IP: pr.parkIP, Port: 7000}), "ping", dht.QueryInput{})
+			close(wsDone)
+		}()
 		select {
-		case <-gw.entered:
+		case <-pr.entered:
 		case <-time.After(5 * time.Second):
 		}
 		// the reply: taken by the serve loop, its handler waits for the lock
@@ -105,13 +114,14 @@ func qLockWindowCase(idx int, sc *qScn, base0 *int) {
 		}
 		// every send and the last resend interval are over: the sender has given up, Query waits for the lock
 		time.Sleep(time.Duration(sc.tries+1)*delay + 60*time.Millisecond)
-		close(gw.release)
+		close(pr.release)
 		select {
 		case <-done:
 		case <-time.After(8 * time.Second):
 			oracle("C14", "query-did-not-return:reply-matched-after-the-sender-gave-up", "%s rep=%d", detail, rep)
 			stuck++
 		}
+		hcancel()
 		select {
 		case <-wsDone:
 		case <-time.After(5 * time.Second):
